@@ -85,16 +85,18 @@ def stratum(s):
     return s if s in ("T", "B") else "k"
 
 
+def do_op(t, fam, is_set, op, p):
+    k = key_of(fam, p)
+    if op == "ins":
+        t.add(k) if is_set else t.__setitem__(k, val_of(fam, p))
+    else:
+        t.remove(k) if is_set else t.__delitem__(k)
+
+
 def apply_hist(cls, fam, is_set, hist):
     t = cls()
     for op, p in hist:
-        k = key_of(fam, p)
-        if op == "ins":
-            t.add(k) if is_set else t.__setitem__(k, val_of(fam, p))
-        elif is_set:
-            t.remove(k)
-        else:
-            del t[k]
+        do_op(t, fam, is_set, op, p)
     return t
 
 
@@ -118,13 +120,8 @@ def reach(cls, fam, is_set, is_tree, pos, rng, n_hist):
                     continue
                 # thinning biased to the ends of the key range: empties whole leaves / subtrees
                 p = cand[0] if rng.random() < 0.25 else cand[-1] if rng.random() < 0.33 else rng.choice(cand)
-            k = key_of(fam, p)
-            if op == "ins":
-                t.add(k) if is_set else t.__setitem__(k, val_of(fam, p))
-                present.add(p)
-            else:
-                t.remove(k) if is_set else t.__delitem__(k)
-                present.discard(p)
+            do_op(t, fam, is_set, op, p)
+            present.add(p) if op == "ins" else present.discard(p)
             hist.append((op, p))
             out.setdefault(sig(t, tt), (tuple(hist), frozenset(present)))
     return out
@@ -254,6 +251,9 @@ class Config:
         forms = [f for f in FORMS if hasattr(t, f)]
         bounds = [OMIT, None] + universe
         n = rot
+
+        def kb(b):
+            return None if b in (None, OMIT) else key_of(self.fam, b)
         for lo in bounds:
             for hi in bounds:
                 for exlo in (False, True):
@@ -262,21 +262,12 @@ class Config:
                         plo = None if lo in (OMIT, None) else lo
                         phi = None if hi in (OMIT, None) else hi
                         exp = expected(present, plo, phi, exlo, exhi)
-                        if OMIT in (lo, hi):     # leave the bound out: keyword form
-                            kw = {}
-                            if lo is not OMIT:
-                                kw["min"] = None if lo is None else key_of(self.fam, lo)
-                            if hi is not OMIT:
-                                kw["max"] = None if hi is None else key_of(self.fam, hi)
-                            if exlo or n % 2:
-                                kw["excludemin"] = exlo
-                            if exhi or n % 3 == 0:
-                                kw["excludemax"] = exhi
+                        args, kw = (kb(lo), kb(hi), exlo, exhi), {}
+                        if OMIT in (lo, hi):     # leave the bound out: keyword form; a false flag is passed only sometimes
                             args = ()
-                        else:
-                            kw = {}
-                            args = (None if lo is None else key_of(self.fam, lo),
-                                    None if hi is None else key_of(self.fam, hi), exlo, exhi)
+                            kw = dict([("min", kb(lo))] * (lo is not OMIT) + [("max", kb(hi))] * (hi is not OMIT) +
+                                      [("excludemin", exlo)] * bool(exlo or n % 2) +
+                                      [("excludemax", exhi)] * bool(exhi or n % 3 == 0))
                         argtxt = ", ".join([repr(a) for a in args] + ["%s=%r" % kv for kv in kw.items()])
                         clause = ("excl-omitted-both" if plo is None and exlo and phi is None and exhi else
                                   "excl-omitted-min" if plo is None and exlo else
@@ -339,7 +330,7 @@ def main():
     a = ap.parse_args()
     qs = H.tier() == "quick"
     nkeys = 8 if qs else 10
-    n_hist, cap_c, cap_py = (200, 80, 30) if qs else (1500, 400, 150)
+    n_hist, cap_c, cap_py = (200, 60, 24) if qs else (1000, 300, 100)
     sizes = [(2, 2), (3, 2)] if qs else [(2, 2), (2, 3), (3, 2), (4, 3)]
     s = Standin(
         name="range_rt",
